@@ -78,6 +78,38 @@ def leaf_edits(doc, rng, per_leaf=("+1", "-1", "0"), limit=None):
             out.append((name, "swap", d2))
     return out
 
+def subtree_transplants(A, B):
+    """A with ONE sub-document replaced by the corresponding sub-document of B (another honest proof of the same shape):
+    every member of the proof object, every element of its lists, every member of its members.  Integer leaves are left to
+    leaf_edits.  Yields (dotted path, document)."""
+    import copy
+    def is_leaf(v): return clj.is_int(v) if hasattr(clj, "is_int") else (isinstance(v, dict) and set(v) == {"radix", "value"})
+    out = []
+    def walk(a, b, path, depth):
+        if a == b or is_leaf(a) or depth > 3: return
+        if [p for p in path if p != "CL03"]:      # not the whole document
+            d = copy.deepcopy(A); t = d
+            for p in path[:-1]: t = t[p]
+            t[path[-1]] = copy.deepcopy(b)
+            out.append((".".join(str(p) for p in path if p != "CL03"), d))
+        if isinstance(a, dict) and isinstance(b, dict):
+            for k in a:
+                if k in b: walk(a[k], b[k], path + (k,), depth + 1)
+        elif isinstance(a, list) and isinstance(b, list):
+            for i in range(min(len(a), len(b))): walk(a[i], b[i], path + (i,), depth + 1)
+    walk(A, B, (), 0)
+    return out
+
+def pair_transplants(A, B, opening_key, range_key):
+    """A with the k-th opening proof AND the k-th range proof both taken from B (a consistent pair about another commitment)"""
+    import copy
+    out = []
+    for k in range(min(len(A["CL03"][opening_key]), len(B["CL03"][opening_key]))):
+        d = copy.deepcopy(A)
+        d["CL03"][opening_key][k] = copy.deepcopy(B["CL03"][opening_key][k]); d["CL03"][range_key][k] = copy.deepcopy(B["CL03"][range_key][k])
+        out.append(("%s[%d]+%s[%d]" % (opening_key, k, range_key, k), d))
+    return out
+
 def edit_label(prefix, name, e):
     """known-finding classes are keyed by the label prefix before '|'"""
     if name.endswith("randomness"): return "F9:unused-randomness-leaf|%s:%s%s" % (prefix, name, e)
@@ -120,6 +152,9 @@ class C14:
                 for U in subsets:
                     for trusted in ((False, True) if (len(U) <= 2 or tier != "quick") else (False,)):
                         msgs = [Q.rmsg(rng) for _ in range(n)]
+                        # hidden attributes sitting exactly on the end points of their range [0, 2^lm - 1]
+                        if (stats["flows"] + len(U)) % 3 == 0: msgs[U[0]] = 0
+                        if (stats["flows"] + len(U)) % 3 == 1: msgs[U[-1]] = 2 ** x.P["lm"] - 1
                         f = issue(S, x, msgs, U, trusted, label="issue")
                         if f is None: continue
                         stats["flows"] += 1; stats["subsets"] += 1
@@ -185,6 +220,32 @@ class C14:
                             labs = [edit_label("zkpok", nm, e) for nm, e, _ in el]
                             stats["field_edits"] += len(lines)
                             S.run(lines, expect=reject, label=labs)
+                        # sub-documents transplanted from a SECOND issuance proof for the same commitment: the two whole sigma proofs
+                        # about C (proof_commited_msgs, proof_C_Ctrusted) and consistent (opening, range) pairs are what the honest prover
+                        # could have drawn => accepted; every other single sub-document breaks a tie => rejected
+                        if suite == "toy" and stats.get("transplants", 0) < (80 if tier == "quick" else 3000):
+                            r2 = S.run([zkgen_line(x, f)], expect="ok", label="triv:zkgen")[0]
+                            if r2.status == "OK":
+                                doc2 = r2.json(0)
+                                tp = subtree_transplants(f["zk"], doc2)
+                                stats["transplants"] = stats.get("transplants", 0) + len(tp)
+                                whole = ("proof_commited_msgs", "proof_C_Ctrusted")
+                                S.run([zkver_line(x, f, zk=d) for _, d in tp], expect=[true_ if nm in whole else reject for nm, _ in tp],
+                                      label=[("recombination:zkpok." if nm in whole else "transplant:zkpok.") + nm for nm, _ in tp])
+                                import copy as _cp
+                                pp = pair_transplants(f["zk"], doc2, "proofs_commited_mi", "range_proofs_mi")
+                                dr_ = _cp.deepcopy(f["zk"]); dr_["CL03"]["proof_r"] = _cp.deepcopy(doc2["CL03"]["proof_r"]); dr_["CL03"]["range_proof_r"] = _cp.deepcopy(doc2["CL03"]["range_proof_r"])
+                                pp.append(("proof_r+range_proof_r", dr_))
+                                S.run([zkver_line(x, f, zk=d) for _, d in pp], expect=true_, label=["recombination:zkpok." + nm for nm, _ in pp])
+                            # pairs from an issuance proof about OTHER attribute values (another commitment, same keys): F15
+                            if stats.get("foreign_pairs", 0) < (6 if tier == "quick" else 200):
+                                f3 = issue(S, x, [Q.rmsg(rng) for _ in range(n)], U, trusted, label="triv:issue")
+                                if f3:
+                                    pp = pair_transplants(f["zk"], f3["zk"], "proofs_commited_mi", "range_proofs_mi")
+                                    dr_ = _cp.deepcopy(f["zk"]); dr_["CL03"]["proof_r"] = _cp.deepcopy(f3["zk"]["CL03"]["proof_r"]); dr_["CL03"]["range_proof_r"] = _cp.deepcopy(f3["zk"]["CL03"]["range_proof_r"])
+                                    pp.append(("proof_r+range_proof_r", dr_))
+                                    stats["foreign_pairs"] = stats.get("foreign_pairs", 0) + len(pp)
+                                    S.run([zkver_line(x, f, zk=d) for _, d in pp], expect=reject, label=["F15:untied-sub-proofs|zkpok." + nm for nm, _ in pp])
         return stats
 
 # ====================================================================================== C15
@@ -226,6 +287,9 @@ class C15:
                 if x is None: continue
                 N = x.pk[0]
                 msgs = [Q.rmsg(rng) for _ in range(n)]
+                # attributes on the end points of their range (hidden in some of the subsets below)
+                if n >= 2: msgs[0] = 0
+                if n >= 3: msgs[n - 1] = 2 ** x.P["lm"] - 1
                 sig = Q.sign(S, x, msgs)
                 if sig is None: continue
                 subsets = list(Q.all_subsets(n)) if suite == "toy" else [[0], [0, 1]]
@@ -269,6 +333,28 @@ class C15:
                         el = leaf_edits(doc, rng, limit=(40 if tier == "quick" else None))
                         stats["field_edits"] += len(el)
                         S.run([spokver_line(x, d, msgs, U) for _, _, d in el], expect=reject, label=[edit_label("spok", nm, e) for nm, e, _ in el])
+                    # sub-documents transplanted from a SECOND presentation of the same signature (same statement, fresh randomness):
+                    # a single sub-document breaks a tie (challenge, Ce = range_proof_e.E, commitment_k = range_proof_k.E) => rejected;
+                    # a CONSISTENT (opening proof, range proof) pair is what the honest prover could have drawn => accepted
+                    if suite == "toy" and stats.get("transplants", 0) < (60 if tier == "quick" else 2000) and (len(U) >= 1 or stats["proofs"] % 3 == 1):
+                        r2 = S.run([spokgen_line(x, sig, msgs, U)], expect="ok", label="triv:proof_gen")[0]
+                        if r2.status == "OK":
+                            doc2 = r2.json(0)
+                            tp = subtree_transplants(doc, doc2)
+                            stats["transplants"] = stats.get("transplants", 0) + len(tp)
+                            S.run([spokver_line(x, d, msgs, U) for _, d in tp], expect=reject, label=["transplant:spok." + nm for nm, _ in tp])
+                            pp = pair_transplants(doc, doc2, "proofs_commited_mi", "range_proofs_commited_mi")
+                            S.run([spokver_line(x, d, msgs, U) for _, d in pp], expect=true_, label=["recombination:spok." + nm for nm, _ in pp])
+                        # ... the same pair taken from a proof about ANOTHER attribute vector (another signature, same keys): the pair
+                        # says nothing about the attributes of THIS signature (F15)
+                        if U and stats.get("foreign_pairs", 0) < (6 if tier == "quick" else 200):
+                            msgs3 = [Q.rmsg(rng) for _ in range(n)]
+                            sig3 = Q.sign(S, x, msgs3)
+                            r3 = S.run([spokgen_line(x, sig3, msgs3, U)], expect="ok", label="triv:proof_gen")[0] if sig3 else None
+                            if r3 is not None and r3.status == "OK":
+                                pp = pair_transplants(doc, r3.json(0), "proofs_commited_mi", "range_proofs_commited_mi")
+                                stats["foreign_pairs"] = stats.get("foreign_pairs", 0) + len(pp)
+                                S.run([spokver_line(x, d, msgs, U) for _, d in pp], expect=reject, label=["F15:untied-sub-proofs|spok." + nm for nm, _ in pp])
         return stats
 
 # ====================================================================================== C16
@@ -539,6 +625,13 @@ class C18:
                 for nm, v in (("p", p), ("q", q), ("(p-1)/2", (p - 1) // 2), ("(q-1)/2", (q - 1) // 2)):
                     if not Q.is_probable_prime(v): bad.append(nm + " not prime")
                 if p.bit_length() != sp + 1 or q.bit_length() != sp + 1: bad.append("|p|,|q| = %d,%d" % (p.bit_length(), q.bit_length()))
+                if k == 0:
+                    # the search for p' started just below 2^SECPARAM (first draw forced): whatever the generator does next, the
+                    # factors it returns must still have SECPARAM + 1 bits
+                    for start in ((1 << sp) - 1, (1 << sp) - 3):
+                        rf = S.run(["Q,%s clkeygen %s" % (str(start).encode().hex(), suite)], expect="ok", label="keygen-forced-start")[0]
+                        if rf.status == "OK" and (rf.z(3).bit_length() != sp + 1 or rf.z(4).bit_length() != sp + 1):
+                            P.fail(S, "key-structure", "|p|,|q| = %d,%d after a prime search started at 2^SECPARAM - %d" % (rf.z(3).bit_length(), rf.z(4).bit_length(), (1 << sp) - start), [str(rf.z(0))])
                 nb = 1 + k % 3
                 rb = S.run(["clbases %s %d %d" % (suite, N, nb)], expect="ok", label="bases")[0]
                 rc = S.run(["clcpk %s %d %d" % (suite, N, nb)], expect="ok", label="cpk(issuer modulus)")[0]
